@@ -139,4 +139,6 @@ class BaseSchema(ABC):
         """
 
     def __setstate__(self, state):
-        self.__dict__ = state
+        # copy.copy() hands over the original's __dict__ itself: take a copy so
+        # that a shallow copy of a schema does not share its attribute dict.
+        self.__dict__ = dict(state)
